@@ -9,8 +9,8 @@ Require gen.T17.
 
 (* Full statement (C17_atomic_any_cfg):
      forall cfg fn tok now chunk f0 ws k, token_ok tok = true -> digits_ok now = true ->
-       let t := apply (firstn k (effects cfg fn tok now chunk f0 (save_ops ws))) f0 fn in
-       t = f0 fn \/ t = Some (concat ws) \/ (f0 fn = None /\ t = Some []).
+       let t := rd cfg fn (apply (firstn k (effects cfg fn tok now chunk f0 (save_ops ws))) f0) in
+       t = rd cfg fn f0 \/ t = Some (concat ws) \/ (rd cfg fn f0 = None /\ t = Some []).
    The pinned code violates it when tmpDir is on another file system (finding
    F20); proved: it holds whenever the temp file is on the target's file system
    (no tmpDir, or a tmpDir for which os.rename works), and fails on a witness
@@ -18,17 +18,17 @@ Require gen.T17.
    save: an empty file where none existed. *)
 Theorem C17_atomic_on_domain :
   forall cfg fn tok now chunk (f0 : fs) (ws : list bytes) k,
-  token_ok tok = true -> digits_ok now = true -> same_fs cfg = true ->
-  let t := apply (firstn k (effects cfg fn tok now chunk f0 (save_ops ws))) f0 fn in
-  t = f0 fn \/ t = Some (concat ws) \/ (f0 fn = None /\ t = Some []).
+  token_ok tok = true -> digits_ok now = true -> link_ok cfg fn tok now f0 -> same_fs cfg = true ->
+  let t := rd cfg fn (apply (firstn k (effects cfg fn tok now chunk f0 (save_ops ws))) f0) in
+  t = rd cfg fn f0 \/ t = Some (concat ws) \/ (rd cfg fn f0 = None /\ t = Some []).
 Proof. exact C17_atomic_on_domain_l. Qed.
 Print Assumptions C17_atomic_on_domain.
 
 Theorem C17_atomic_refuted :
   exists cfg fn tok now chunk (f0 : fs) (ws : list bytes) k,
-  token_ok tok = true /\ digits_ok now = true /\ same_fs cfg = false /\
-  let t := apply (firstn k (effects cfg fn tok now chunk f0 (save_ops ws))) f0 fn in
-  ~ (t = f0 fn \/ t = Some (concat ws) \/ (f0 fn = None /\ t = Some [])).
+  token_ok tok = true /\ digits_ok now = true /\ link_ok cfg fn tok now f0 /\ same_fs cfg = false /\
+  let t := rd cfg fn (apply (firstn k (effects cfg fn tok now chunk f0 (save_ops ws))) f0) in
+  ~ (t = rd cfg fn f0 \/ t = Some (concat ws) \/ (rd cfg fn f0 = None /\ t = Some [])).
 Proof. exact C17_atomic_refuted_l. Qed.
 Print Assumptions C17_atomic_refuted.
 
@@ -36,9 +36,9 @@ Print Assumptions C17_atomic_refuted.
    version or a prefix of the new one (so the damage of F20 is a truncated new file). *)
 Theorem C17_any_cfg_old_or_prefix :
   forall cfg fn tok now chunk (f0 : fs) (ws : list bytes) k,
-  token_ok tok = true -> digits_ok now = true ->
-  let t := apply (firstn k (effects cfg fn tok now chunk f0 (save_ops ws))) f0 fn in
-  t = f0 fn \/ exists m, t = Some (firstn m (concat ws)).
+  token_ok tok = true -> digits_ok now = true -> link_ok cfg fn tok now f0 ->
+  let t := rd cfg fn (apply (firstn k (effects cfg fn tok now chunk f0 (save_ops ws))) f0) in
+  t = rd cfg fn f0 \/ exists m, t = Some (firstn m (concat ws)).
 Proof. exact C17_any_cfg_old_or_prefix_l. Qed.
 Print Assumptions C17_any_cfg_old_or_prefix.
 
@@ -55,8 +55,8 @@ Print Assumptions C17_temp_never_read.
    untouched at every instant, and the temp file is gone at the end. *)
 Theorem C17_rollback_keeps_old :
   forall cfg fn tok now chunk (f0 : fs) (ws : list bytes),
-  token_ok tok = true -> digits_ok now = true ->
-  (forall k, apply (firstn k (effects cfg fn tok now chunk f0 (abort_ops ws))) f0 fn = f0 fn) /\
+  token_ok tok = true -> digits_ok now = true -> link_ok cfg fn tok now f0 ->
+  (forall k, rd cfg fn (apply (firstn k (effects cfg fn tok now chunk f0 (abort_ops ws))) f0) = rd cfg fn f0) /\
   apply (effects cfg fn tok now chunk f0 (abort_ops ws)) f0 (temp_name cfg fn tok) = None.
 Proof. exact C17_rollback_keeps_old_l. Qed.
 Print Assumptions C17_rollback_keeps_old.
@@ -64,9 +64,9 @@ Print Assumptions C17_rollback_keeps_old.
 (* An empty new file never replaces an existing one unless allowEmptyOverwrite... *)
 Theorem C17_empty_overwrite_rule :
   forall cfg fn tok now chunk (f0 : fs) (ws : list bytes) o k,
-  token_ok tok = true -> digits_ok now = true ->
-  f0 fn = Some o -> concat ws = [] -> c_aeo cfg = false ->
-  apply (firstn k (effects cfg fn tok now chunk f0 (save_ops ws))) f0 fn = Some o.
+  token_ok tok = true -> digits_ok now = true -> link_ok cfg fn tok now f0 ->
+  rd cfg fn f0 = Some o -> concat ws = [] -> c_aeo cfg = false ->
+  rd cfg fn (apply (firstn k (effects cfg fn tok now chunk f0 (save_ops ws))) f0) = Some o.
 Proof. exact C17_empty_overwrite_rule_l. Qed.
 Print Assumptions C17_empty_overwrite_rule.
 
@@ -74,9 +74,9 @@ Print Assumptions C17_empty_overwrite_rule.
    and removes the temp file, on any file-system layout. *)
 Theorem C17_save_completes :
   forall cfg fn tok now chunk (f0 : fs) (ws : list bytes),
-  token_ok tok = true -> digits_ok now = true ->
-  (concat ws <> [] \/ c_aeo cfg = true \/ f0 fn = None) ->
-  apply (effects cfg fn tok now chunk f0 (save_ops ws)) f0 fn = Some (concat ws) /\
+  token_ok tok = true -> digits_ok now = true -> link_ok cfg fn tok now f0 ->
+  (concat ws <> [] \/ c_aeo cfg = true \/ rd cfg fn f0 = None) ->
+  rd cfg fn (apply (effects cfg fn tok now chunk f0 (save_ops ws)) f0) = Some (concat ws) /\
   apply (effects cfg fn tok now chunk f0 (save_ops ws)) f0 (temp_name cfg fn tok) = None.
 Proof. exact C17_save_completes_l. Qed.
 Print Assumptions C17_save_completes.
@@ -86,12 +86,12 @@ Print Assumptions C17_save_completes.
    content in the backup file; otherwise the backup path is never touched. *)
 Theorem C17_backup_rule :
   forall cfg fn tok now chunk (f0 : fs) (ws : list bytes),
-  token_ok tok = true -> digits_ok now = true ->
-  (forall o, f0 fn = Some o ->
-     overwrite_allowed cfg (f0 fn) (concat ws) = true ->
-     backup_wanted cfg (f0 fn) (concat ws) = true ->
+  token_ok tok = true -> digits_ok now = true -> link_ok cfg fn tok now f0 ->
+  (forall o, rd cfg fn f0 = Some o ->
+     overwrite_allowed cfg (rd cfg fn f0) (concat ws) = true ->
+     backup_wanted cfg (rd cfg fn f0) (concat ws) = true ->
      apply (effects cfg fn tok now chunk f0 (save_ops ws)) f0 (backup_name cfg fn now) = Some o) /\
-  (backup_wanted cfg (f0 fn) (concat ws) = false ->
+  (backup_wanted cfg (rd cfg fn f0) (concat ws) = false ->
      forall k, apply (firstn k (effects cfg fn tok now chunk f0 (save_ops ws))) f0 (backup_name cfg fn now)
                = f0 (backup_name cfg fn now)).
 Proof. exact C17_backup_rule_l. Qed.
@@ -106,18 +106,18 @@ Print Assumptions C17_backup_rule.
    [inited] = the exception is raised outside AtomicFile.__init__. *)
 Theorem C17_atomic_under_unwinding :
   forall cfg fn tok now chunk (f0 : fs) (ws : list bytes) k inited,
-  token_ok tok = true -> digits_ok now = true -> same_fs cfg = true ->
-  let t := apply (interrupted cfg fn tok now chunk f0 (save_ops ws) k inited) f0 fn in
-  t = f0 fn \/ t = Some (concat ws) \/ (f0 fn = None /\ t = Some []).
+  token_ok tok = true -> digits_ok now = true -> link_ok cfg fn tok now f0 -> same_fs cfg = true ->
+  let t := rd cfg fn (apply (interrupted cfg fn tok now chunk f0 (save_ops ws) k inited) f0) in
+  t = rd cfg fn f0 \/ t = Some (concat ws) \/ (rd cfg fn f0 = None /\ t = Some []).
 Proof. exact C17_atomic_under_unwinding_l. Qed.
 Print Assumptions C17_atomic_under_unwinding.
 
 (* ...and on every configuration (tmpDir on another file system included) it is old or a prefix of new. *)
 Theorem C17_unwinding_any_cfg_old_or_prefix :
   forall cfg fn tok now chunk (f0 : fs) (ws : list bytes) k inited,
-  token_ok tok = true -> digits_ok now = true ->
-  let t := apply (interrupted cfg fn tok now chunk f0 (save_ops ws) k inited) f0 fn in
-  t = f0 fn \/ exists m, t = Some (firstn m (concat ws)).
+  token_ok tok = true -> digits_ok now = true -> link_ok cfg fn tok now f0 ->
+  let t := rd cfg fn (apply (interrupted cfg fn tok now chunk f0 (save_ops ws) k inited) f0) in
+  t = rd cfg fn f0 \/ exists m, t = Some (firstn m (concat ws)).
 Proof. exact C17_unwinding_any_cfg_old_or_prefix_l. Qed.
 Print Assumptions C17_unwinding_any_cfg_old_or_prefix.
 
@@ -139,9 +139,9 @@ Print Assumptions C17_unwinding_removes_temp.
    the full statement; it replaces the former C17_write_error_swallowed_refuted. *)
 Theorem C17_atomic_under_write_error :
   forall cfg fn tok now chunk (f0 : fs) (ws : list bytes) k inited j,
-  token_ok tok = true -> digits_ok now = true -> same_fs cfg = true ->
-  let t := apply (write_error_effects cfg fn tok now chunk f0 ws k inited j) f0 fn in
-  t = f0 fn \/ t = Some (concat ws) \/ (f0 fn = None /\ t = Some []).
+  token_ok tok = true -> digits_ok now = true -> link_ok cfg fn tok now f0 -> same_fs cfg = true ->
+  let t := rd cfg fn (apply (write_error_effects cfg fn tok now chunk f0 ws k inited j) f0) in
+  t = rd cfg fn f0 \/ t = Some (concat ws) \/ (rd cfg fn f0 = None /\ t = Some []).
 Proof. exact C17_atomic_under_write_error_l. Qed.
 Print Assumptions C17_atomic_under_write_error.
 
@@ -151,9 +151,9 @@ Print Assumptions C17_atomic_under_write_error.
    the j-th write); [surviving] = the target file afterwards. *)
 Theorem C17_atomic_any_death :
   forall cfg fn tok now chunk (f0 : fs) (ws : list bytes) (d : death),
-  token_ok tok = true -> digits_ok now = true -> same_fs cfg = true ->
+  token_ok tok = true -> digits_ok now = true -> link_ok cfg fn tok now f0 -> same_fs cfg = true ->
   let t := surviving cfg fn tok now chunk f0 ws d in
-  t = f0 fn \/ t = Some (concat ws) \/ (f0 fn = None /\ t = Some []).
+  t = rd cfg fn f0 \/ t = Some (concat ws) \/ (rd cfg fn f0 = None /\ t = Some []).
 Proof. exact atomic_any_death. Qed.
 Print Assumptions C17_atomic_any_death.
 
@@ -168,10 +168,10 @@ Print Assumptions C17_atomic_any_death.
 Theorem C17_loads :
   forall (decode : bytes -> res str), decode [] = Ok [] ->
   forall (c : caller) cfg fn tok now chunk (f0 : fs) (ws : list bytes) (d : death),
-  token_ok tok = true -> digits_ok now = true -> same_fs cfg = true ->
-  (must_exist c = true -> f0 fn <> None) ->
+  token_ok tok = true -> digits_ok now = true -> link_ok cfg fn tok now f0 -> same_fs cfg = true ->
+  (must_exist c = true -> rd cfg fn f0 <> None) ->
   let t := surviving cfg fn tok now chunk f0 ws d in
-  load decode c t = load decode c (f0 fn) \/ load decode c t = load decode c (Some (concat ws)).
+  load decode c t = load decode c (rd cfg fn f0) \/ load decode c t = load decode c (Some (concat ws)).
 Proof. exact loads_old_or_new. Qed.
 Print Assumptions C17_loads.
 
